@@ -344,3 +344,79 @@ pub fn mixed_order_signatures(out: &mut Out, rng: &mut Rng) {
         }
     }
 }
+
+
+/// Conversions into the fixed-length containers: exact length accepted with the same bytes, any other length refused,
+/// by-value and by-reference forms equal, and every way of viewing the bytes (`as_array` through a Vec, a slice, a slice
+/// reference) sees the same bytes.  Shared by the properties whose entry points take these containers.
+pub fn conversions(out: &mut Out, rng: &mut Rng) {
+    use std::convert::TryFrom;
+    let src: Vec<u8> = rng.bytes(200);
+    macro_rules! fixed { ($n:expr) => {{
+        let exact = &src[..$n];
+        out.search_evaluations += 8;
+        match StackByteArray::<$n>::try_from(exact) { Ok(a) => { if a.as_slice() != exact { out.hit("containers.try_from.changes-bytes", format!("StackByteArray<{}>", $n), json!({"op":"containers.try_from","container":"StackByteArray","n":$n})); } } Err(_) => out.hit("containers.try_from.rejects-exact-length", format!("StackByteArray<{}>", $n), json!({"n":$n})) }
+        for l in [0usize, 1, $n - 1, $n + 1, 2 * $n, 100] { if l != $n && StackByteArray::<$n>::try_from(&src[..l]).is_ok() { out.hit("containers.try_from.accepts-wrong-length", format!("StackByteArray<{}> from a slice of {} bytes", $n, l), json!({"op":"containers.try_from","container":"StackByteArray","n":$n,"len":l})); } }
+        let arr: [u8; $n] = exact.try_into().unwrap();
+        if StackByteArray::<$n>::from(arr).as_slice() != exact || StackByteArray::<$n>::from(&arr).as_slice() != exact { out.hit("containers.from-array.changes-bytes", format!("StackByteArray<{}>", $n), json!({"n":$n})); }
+        // views: a Vec, a slice, a reference to a slice
+        let v: Vec<u8> = exact.to_vec(); let sl: &[u8] = &v[..];
+        let a1: &[u8; $n] = ByteArray::<$n>::as_array(&v);
+        let a2: &[u8; $n] = ByteArray::<$n>::as_array(sl);
+        let a3: &[u8; $n] = ByteArray::<$n>::as_array(&sl);
+        if a1[..] != *exact || a2[..] != *exact || a3[..] != *exact { out.hit("containers.as_array.view-differs", format!("as_array::<{}> through Vec / [u8] / &[u8] gives {} / {} / {}", $n, hx(a1), hx(a2), hx(a3)), json!({"op":"containers.as_array","n":$n,"bytes":hx(exact)})); }
+    }}; }
+    fixed!(16); fixed!(24); fixed!(32); fixed!(64);
+    #[cfg(feature = "nightly")]
+    {
+        use dryoc::protected::*;
+        macro_rules! heap { ($n:expr) => {{
+            let exact = &src[..$n];
+            out.search_evaluations += 8;
+            match HeapByteArray::<$n>::try_from(exact) { Ok(a) => { if a.as_slice() != exact || a.as_array()[..] != *exact || a.len() != $n { out.hit("containers.try_from.changes-bytes", format!("HeapByteArray<{}>: {} bytes {}", $n, a.len(), hx(a.as_slice())), json!({"op":"containers.try_from","container":"HeapByteArray","n":$n})); } } Err(_) => out.hit("containers.try_from.rejects-exact-length", format!("HeapByteArray<{}>", $n), json!({"n":$n})) }
+            for l in [0usize, 1, $n - 1, $n + 1, 2 * $n, 100] { if l != $n && HeapByteArray::<$n>::try_from(&src[..l]).is_ok() { out.hit("containers.try_from.accepts-wrong-length", format!("HeapByteArray<{}> from a slice of {} bytes", $n, l), json!({"op":"containers.try_from","container":"HeapByteArray","n":$n,"len":l})); } }
+            let arr: [u8; $n] = exact.try_into().unwrap();
+            if HeapByteArray::<$n>::from(arr).as_slice() != exact || HeapByteArray::<$n>::from(&arr).as_slice() != exact || HeapByteArray::<$n>::from(StackByteArray::<$n>::from(&arr)).as_slice() != exact {
+                out.hit("containers.from-array.changes-bytes", format!("HeapByteArray<{}>", $n), json!({"op":"containers.from","container":"HeapByteArray","n":$n})); }
+            if HeapBytes::from(exact).as_slice() != exact { out.hit("containers.from-slice.changes-bytes", "HeapBytes".into(), json!({"n":$n})); }
+            match HeapByteArray::<$n>::from_slice_into_locked(exact) { Ok(l) => { if l.as_slice() != exact { out.hit("containers.from-slice.changes-bytes", format!("Locked<HeapByteArray<{}>>", $n), json!({"n":$n})); } } Err(_) => {} }
+        }}; }
+        heap!(16); heap!(32); heap!(64);
+    }
+}
+
+/// Seeded and recomputed key pairs through the object API, and key exchange with unusual but legal peers
+pub fn seeded_object_keys(out: &mut Out, rng: &mut Rng) {
+    for r in 0..4 {
+        let seed: [u8; 32] = rng.arr();
+        let rp = json!({"op":"obj.seeded-keys","seed":hx(&seed),"round":r});
+        // box key pair from a seed: libsodium's crypto_box_seed_keypair
+        let (bpk, bsk) = sodium::box_seed_keypair(&seed);
+        differ(out, "keypair.from_seed", guard_total(|| { let kp = dryoc::keypair::StackKeyPair::from_seed(&seed); [kp.public_key.to_vec(), kp.secret_key.to_vec()].concat() }), &[bpk.to_vec(), bsk.to_vec()].concat(), rp.clone());
+        differ(out, "keypair.from_seed(vec)", guard_total(|| { let kp = dryoc::keypair::KeyPair::<Vec<u8>, Vec<u8>>::from_seed(&seed.to_vec()); [kp.public_key.to_vec(), kp.secret_key.to_vec()].concat() }), &[bpk.to_vec(), bsk.to_vec()].concat(), rp.clone());
+        // a sealed box libsodium addressed to that key pair opens with it
+        { let m = rng.bytes(9); let sealed = sodium::box_seal(&m, &bpk);
+          differ(out, "keypair.from_seed+unseal", guard(|| { let kp = dryoc::keypair::StackKeyPair::from_seed(&seed); dryoc::dryocbox::VecBox::from_sealed_bytes(&sealed)?.unseal_to_vec(&kp) }), &m, rp.clone()); }
+        // key-exchange key pair from a seed: libsodium's crypto_kx_seed_keypair (BLAKE2b-256 of the seed)
+        let (kpk, ksk) = sodium::kx_seed_keypair(&seed);
+        differ(out, "kx.seed_keypair", guard(|| dryoc::classic::crypto_kx::crypto_kx_seed_keypair(&seed)).map(|(pk, sk)| [pk.to_vec(), sk.to_vec()].concat()), &[kpk.to_vec(), ksk.to_vec()].concat(), rp.clone());
+        // signing key pair from a 64-byte secret key whose second half is not the public key: rebuilt from the seed half
+        let (spk, ssk) = sodium::sign_seed_keypair(&seed);
+        for (what, tail) in [("honest", spk.to_vec()), ("zero tail", vec![0u8; 32]), ("seed twice", seed.to_vec()), ("another key", sodium::sign_seed_keypair(&[9u8; 32]).0.to_vec())] {
+            let sk64: [u8; 64] = [seed.to_vec(), tail].concat().try_into().unwrap();
+            differ(out, &format!("sign.keypair.from_secret_key({})", what), guard_total(|| { let kp = dryoc::sign::SigningKeyPair::<dryoc::sign::PublicKey, dryoc::sign::SecretKey>::from_secret_key(StackByteArray::<64>::from(&sk64)); [kp.public_key.to_vec(), kp.secret_key.to_vec()].concat() }), &[spk.to_vec(), ssk.to_vec()].concat(), rp.clone());
+        }
+        // a key pair recomputed from a secret key keeps that secret key (clamped or not)
+        for skx in [seed, { let mut x = seed; x[0] |= 7; x[31] |= 0x80; x }] {
+            differ(out, "keypair.from_secret_key", guard_total(|| { let kp = dryoc::keypair::StackKeyPair::from_secret_key(StackByteArray::<32>::from(&skx)); [kp.public_key.to_vec(), kp.secret_key.to_vec()].concat() }), &[sodium::scalarmult_base(&skx).to_vec(), skx.to_vec()].concat(), rp.clone());
+        }
+        // key exchange with one's own public key as the peer: legal, libsodium computes session keys
+        { use dryoc::kx::Session;
+          let kp = dryoc::kx::KeyPair::from_secret_key(StackByteArray::<32>::from(&bsk));
+          if let Some((lrx, ltx)) = sodium::kx_client(&bpk, &bsk, &bpk) {
+              differ(out, "kx.session.own-key-as-peer(client)", guard(|| Session::<StackByteArray<32>>::new_client(&kp, &kp.public_key)).map(|s| [s.rx_as_slice().to_vec(), s.tx_as_slice().to_vec()].concat()), &[lrx.to_vec(), ltx.to_vec()].concat(), rp.clone()); }
+          if let Some((lrx, ltx)) = sodium::kx_server(&bpk, &bsk, &bpk) {
+              differ(out, "kx.session.own-key-as-peer(server)", guard(|| Session::<StackByteArray<32>>::new_server(&kp, &kp.public_key)).map(|s| [s.rx_as_slice().to_vec(), s.tx_as_slice().to_vec()].concat()), &[lrx.to_vec(), ltx.to_vec()].concat(), rp.clone()); }
+        }
+    }
+}
